@@ -33,7 +33,7 @@ TOL = 1e-6
 
 def floors(tier):
     return {"trajectories": 200, "evaluations_compared": 2500, "multi_trial_searches_compared": 150, "probes": 80, "probe_evaluations_compared": 300,
-            "constant_probes": 10, "trajectories_with_gradient_reusing_forward_state": 50, "box_final_values_compared": 60, "__nontrivial__": 120}
+            "constant_probes": 10, "trajectories_with_gradient_reusing_forward_state": 50, "trajectories_with_starved_line_searches": 300, "failed_searches_compared_through": 3, "box_final_values_compared": 60, "__nontrivial__": 120}
 
 
 def cases(tier, seed):
@@ -44,7 +44,15 @@ def cases(tier, seed):
         yield {"kind": "traj", "problem": {"family": fam, "n": int(rng.integers(1, 9)), "seed": int(rng.integers(0, 2**31 - 1)),
                                            "cond": float(np.exp(rng.uniform(0, np.log(1e3)))), "box": "none", "start": "interior"},
                "maxcor": int(rng.integers(1, 9)), "x0scale": float(gen.pick(rng, [0.5, 1.0, 2.0])), "hostile": bool(i % 3 == 0),
-               "fscale": float(10.0 ** rng.uniform(0, 13)) if i % 5 == 1 else 1.0, "prior_is_x0": bool(i % 7 == 2), "adjoint": bool(i % 4 == 3)}
+               "fscale": float(10.0 ** rng.uniform(0, 13)) if i % 5 == 1 else 1.0, "prior_is_x0": bool(i % 7 == 2), "adjoint": bool(i % 4 == 3),
+               "maxls": int(gen.pick(rng, [1, 2, 2, 3])) if i % 3 == 1 else 20, "maxiter": 30 if i % 3 == 1 else 12}
+    # starved line searches on a scaled Rosenbrock valley: a search that uses its two evaluations without finding a lower value makes
+    # both implementations drop their memory and restart the iteration; the comparison goes on through such restarts
+    for i in range(700 if tier == "quick" else 12000):
+        yield {"kind": "traj", "problem": {"family": "rosenbrock", "n": int(rng.integers(2, 7)), "seed": int(rng.integers(0, 2**31 - 1)), "cond": 1.0,
+                                           "box": "none", "start": "interior"},
+               "maxcor": int(rng.integers(2, 9)), "x0scale": float(gen.pick(rng, [0.5, 1.0])), "hostile": bool(i % 2 == 0), "fscale": 0.1,
+               "prior_is_x0": False, "adjoint": False, "maxls": 2, "maxiter": 30, "x0_uniform": 2.0}
     npb = 160 if tier == "quick" else 4000
     for i in range(npb):
         yield {"kind": "probe", "rho": float(gen.pick(rng, [2e-4, 5e-4, 8e-4, 1.3e-3, 2e-3, 5e-3])), "sigma": float(gen.pick(rng, [0.6, 0.8, 0.95])),
@@ -75,7 +83,7 @@ def adjoint_pair(f, g):
     return ff, gg
 
 
-def scipy_trace(f, g, x0, maxcor, maxiter=12, bounds=None, gtol=1e-14):
+def scipy_trace(f, g, x0, maxcor, maxiter=12, bounds=None, gtol=1e-14, maxls=20):
     from scipy.optimize import minimize
 
     pts, vals = [], []
@@ -90,13 +98,13 @@ def scipy_trace(f, g, x0, maxcor, maxiter=12, bounds=None, gtol=1e-14):
     old = np.seterr(all="ignore")
     try:
         res = minimize(fun, np.array(x0, copy=True), jac=lambda x: g(np.array(x, copy=True)), method="L-BFGS-B", bounds=bounds,
-                       options=dict(maxcor=maxcor, ftol=0.0, gtol=gtol, maxiter=maxiter, maxls=20, maxfun=100000))
+                       options=dict(maxcor=maxcor, ftol=0.0, gtol=gtol, maxiter=maxiter, maxls=maxls, maxfun=100000))
     finally:
         np.seterr(**old)
     return pts, vals, res
 
 
-def port_trace(f, g, x0, maxcor, maxiter=12, hostile=False, x0_same_object=False):
+def port_trace(f, g, x0, maxcor, maxiter=12, hostile=False, x0_same_object=False, maxls=20):
     """Runs the port with interception of its line searches; returns (points, searches).
     hostile: the user's gradient is written into one reused work array (as many simulation codes do)."""
     import lbfgsb.main as M
@@ -163,20 +171,26 @@ def port_trace(f, g, x0, maxcor, maxiter=12, hostile=False, x0_same_object=False
                 return gbuf["b"]
 
             res = minimize_lbfgsb(x0=(x0 if x0_same_object else np.array(x0, copy=True)), fun=fun, jac=jac, maxcor=maxcor, ftol=0.0,
-                                  gtol=1e-14, maxiter=maxiter)
+                                  gtol=1e-14, maxiter=maxiter, maxls=maxls)
     finally:
         np.seterr(**old)
     return pts, searches, res, consts, ic
 
 
-def compare_traces(out, name, ppts, searches, spts, svals, tags, label="evaluations_compared", maxcor=None, skipped_at=()):
+def compare_traces(out, name, ppts, searches, spts, svals, tags, label="evaluations_compared", maxcor=None, skipped_at=(), continue_after_failed_search=False, maxls=None, fg=None):
     """Pairwise comparison with the deviation rules. Returns (#compared, #multi-trial searches fully compared, why stopped)."""
     # trial steps of every search of the port
     cut, why = None, None
+    nfailed = 0
+    pairs_bound = None  # upper bound on the number of stored pairs when this search starts (searches since the last memory reset)
     for s in searches:
         x0, d = s["x0"], s["d"]
         dd = float(d @ d)
-        if maxcor is not None and min(int(s["above_iter"]), maxcor) > x0.size:
+        pairs_bound = int(s["above_iter"]) if pairs_bound is None else pairs_bound
+        s["pairs_bound"] = pairs_bound
+        pairs_now = pairs_bound
+        pairs_bound = 0 if s["ret"] is None else pairs_bound + 1
+        if maxcor is not None and min(pairs_now, maxcor) > x0.size:
             # more correction pairs than variables: S^T Y is singular, the compact matrices of both implementations
             # are then determined by rounding noise only (a round-off regime of its own)
             cut, why = s["first"], "more_pairs_than_variables"
@@ -195,21 +209,40 @@ def compare_traces(out, name, ppts, searches, spts, svals, tags, label="evaluati
             k = next(i for i, a in enumerate(alphas) if i >= 1 and a >= 1.0 - 1e-12)
             cut, why = s["first"] + k, "first_iteration_cap"
             break
+        if s["ret"] is not None and maxls is not None and len(alphas) >= maxls and not wolfe_holds(fg, s, ppts[s["last"] - 1], alphas[-1]):
+            # the evaluation cap was used up and a step was returned: the port accepts the lowest trial of an unconverged search where
+            # the reference restarts (the documented lowest-trial deviation)
+            cut, why = s["last"], "best_trial_or_failed_search"
+            break
+        if s["ret"] is None and alphas and continue_after_failed_search:
+            # a search that used its evaluation cap without finding a lower value: both implementations drop the memory and restart
+            # the iteration from the same point (no documented deviation is involved): the comparison goes on
+            nfailed += 1
+            out.count("failed_searches_seen_before_any_cut")
+            continue
         if s["ret"] is None or not alphas or abs(float(s["ret"]) - alphas[-1]) > 1e-12 * max(1.0, abs(alphas[-1])):
             # lowest-trial acceptance (or failed search): the trials of this search still compare, what follows does not
             cut, why = s["last"], "best_trial_or_failed_search"
             break
     limit = min(len(ppts), len(spts)) if cut is None else min(cut, len(ppts), len(spts))
     ncomp = 0
+    worst_before = 0.0
     for k in range(limit):
         a, b = ppts[k], spts[k]
         err = float(np.max(np.abs(a - b)) / max(1.0, float(np.max(np.abs(b)))))
         if in_roundoff(svals, k):
             why = why or "reference_roundoff_regime"
             break
+        if not (err <= TOL) and err <= 1e3 * max(worst_before, 1e-14):
+            # gradual amplification of rounding differences along a long trajectory (each evaluation multiplies the difference by at
+            # most ~30 in a curved valley): "coincides up to rounding" has stopped being decidable, the comparison ends here. A
+            # departure caused by the algorithm is a jump of many orders of magnitude within one evaluation and is still reported.
+            why = why or "rounding_drift"
+            break
+        worst_before = max(worst_before, err if err == err else np.inf)
         ncomp += 1
         out.count(label)
-        out.maxi("max_relative_difference", err)
+        out.maxi("max_relative_difference", err if err <= TOL else 0.0)
         if not (err <= TOL) and any(k >= e for e in skipped_at):
             # a curvature update was skipped earlier: the port forms its next pair from the last *retained* iterate,
             # Algorithm 778 from consecutive iterates (own mechanism, see known_findings.json)
@@ -225,9 +258,25 @@ def compare_traces(out, name, ppts, searches, spts, svals, tags, label="evaluati
     for s in searches:
         if s["last"] <= ncomp and (s["last"] - s["first"]) >= 2:
             multi += 1
+        if s["ret"] is None and continue_after_failed_search and s["last"] + 2 <= ncomp:
+            out.count("failed_searches_compared_through")
     if why:
         out.count("stopped:" + why)
     return ncomp, multi, why
+
+
+def wolfe_holds(fg, s, point, alpha):
+    """Did the search converge at its last trial (strong Wolfe conditions with the search's own constants, margins of 1e-9 so that a
+    borderline case counts as not converged)? Recomputed with the harness's own objective."""
+    if fg is None or s.get("ftol") is None or s.get("gtol") is None or not (alpha == alpha):
+        return False
+    f, g = fg
+    x0, d = s["x0"], s["d"]
+    f0, g0d = f(np.array(x0, copy=True)), float(g(np.array(x0, copy=True)) @ d)
+    f1, g1d = f(np.array(point, copy=True)), float(g(np.array(point, copy=True)) @ d)
+    if not (g0d < 0 and np.isfinite(f1) and np.isfinite(g1d)):
+        return False
+    return bool(f1 <= f0 + s["ftol"] * alpha * g0d - 1e-9 * abs(f0) and abs(g1d) <= s["gtol"] * abs(g0d) * (1 - 1e-9))
 
 
 def in_roundoff(svals, k):
@@ -236,7 +285,12 @@ def in_roundoff(svals, k):
         return False
     best_before = min(svals[: k - 1])
     best_now = min(svals[: k + 1])
-    return (best_before - best_now) <= 1e-8 * max(abs(best_before), abs(best_now), 1.0) and k >= 6
+    scale = max(abs(best_before), abs(best_now), 1.0)
+    stalled = (best_before - best_now) <= 1e-8 * scale and k >= 6
+    # ... and the recent values sit at the best value (two rejected trials far above it, as in a starved line search away from the
+    # solution, are not the round-off regime)
+    near_best = max(svals[k - 1], svals[k]) - best_now <= 1e-6 * scale
+    return bool(stalled and near_best)
 
 
 def probe_objective(spec):
@@ -270,6 +324,8 @@ def run(spec):
     if kind == "traj":
         P = gen.make_problem(spec["problem"])
         x0 = P.x0 * spec["x0scale"]
+        if spec.get("x0_uniform"):
+            x0 = np.random.default_rng(spec["problem"]["seed"]).uniform(-spec["x0_uniform"], spec["x0_uniform"], P.n)
         g0 = P.g(x0.copy())
         if np.linalg.norm(g0) < 1.0:
             x0 = x0 + 3.0 / max(np.linalg.norm(x0), 1e-3) * x0 + 1.0
@@ -301,13 +357,17 @@ def run(spec):
             out.count("trajectories_with_gradient_reusing_forward_state")
             fobj, gobj = adjoint_pair(fobj, gobj)
             fref, gref = adjoint_pair(fref, gref)
-        ppts, searches, pres, consts, ic = port_trace(fobj, gobj, x0_port, spec["maxcor"], hostile=bool(spec.get("hostile")), x0_same_object=bool(spec.get("prior_is_x0")))
+        mls, mit = int(spec.get("maxls", 20)), int(spec.get("maxiter", 12))
+        if mls != 20:
+            out.count("trajectories_with_starved_line_searches")
+        ppts, searches, pres, consts, ic = port_trace(fobj, gobj, x0_port, spec["maxcor"], hostile=bool(spec.get("hostile")), x0_same_object=bool(spec.get("prior_is_x0")),
+                                                      maxls=mls, maxiter=mit)
         if spec.get("hostile"):
             out.count("trajectories_with_reused_gradient_buffer")
-        spts, svals, sres = scipy_trace(fref, gref, x0, spec["maxcor"])
+        spts, svals, sres = scipy_trace(fref, gref, x0, spec["maxcor"], maxls=mls, maxiter=mit)
         out.count("trajectories")
         ncomp, multi, why = compare_traces(out, name, ppts, searches, spts, svals, tags, maxcor=spec["maxcor"],
-                                           skipped_at=consts["skipped_updates_at_eval"])
+                                           skipped_at=consts["skipped_updates_at_eval"], continue_after_failed_search=mls != 20, maxls=mls, fg=(fref, gref))
         out.count("skipped_updates_seen", len(consts["skipped_updates_at_eval"]))
         if consts.get("unjustified_skips_at_eval") and not out.violations:
             out.violate("curvature_update_skipped_without_cause", f"{name}: a BFGS update was skipped at evaluation "
